@@ -470,7 +470,7 @@ def run(ctx):
         maxitems = 3 if q else 4
         thunks = []
         for kind, m in MC_KINDS:
-            thunks.append(lambda kind=kind, m=m: (kind, m, ctx.table("spend/MC_Spend.tla", "MC_Spend.cfg", workers=2, timeout=3000,
+            thunks.append(lambda kind=kind, m=m: (kind, m, ctx.table("spend/MC_Spend.tla", "MC_Spend.cfg", workers=2, timeout=7200,
                                                                        env={"KIND": kind, "M": m, "MAXITEMS": maxitems, "EXPORT": 1})))
         tables = ctx.parallel(thunks, workers=8)
         ctx.exhaustive.append("SpendMC: every spend of <= %d witness/scriptSig items from the adversary alphabet for %d output kinds: "
@@ -523,7 +523,7 @@ def run(ctx):
     ctx.sample({k: cases[0][k] for k in ("id", "label", "typ", "verdict", "ssig", "wit")})
     ctx.sample({"labels": sorted({c["label"].split("@")[0] for c in cases})})
     send = [{k: v for k, v in c.items() if k not in ("label", "typ", "n", "raw")} for c in cases]
-    bad = ctx.validate("spend/C06Cases.tla", send, "C06Cases.cfg", timeout=3000, per_shard_min=10)
+    bad = ctx.validate("spend/C06Cases.tla", send, "C06Cases.cfg", timeout=7200, per_shard_min=10)
     for cid, why in bad.items():
         c = byid[cid]
         ctx.violation("%s:%s:%s" % (why, c["typ"], c["label"].split("@")[0]),
